@@ -1,6 +1,7 @@
 """WASI family (F3): agent process client, errno table, guest-memory helpers shared by C12-C15."""
 import errno
 import os
+import select
 import struct
 import subprocess
 
@@ -26,6 +27,9 @@ def wasi_errno_of(oserror):
 
 def ename(n):
     return WASI_NAME.get(n, str(n))
+
+
+HANG_S = 60
 
 
 class AgentDied(Exception):
@@ -82,6 +86,13 @@ class Agent(object):
     def _send(self, line):
         try:
             self.w.write(line.encode() + b'\n')
+            # hang guard: a call that does not come back within HANG_S seconds (typical: well under a millisecond) is a call that
+            # blocks where the POSIX operation returns; the agent is killed and the step reported
+            # (one answer line per command, so nothing is left in the reader's buffer when a command is sent)
+            if not select.select([self.r], [], [], HANG_S)[0]:
+                self.p.kill()
+                self.p.wait()
+                raise AgentDied('agent did not answer within %d s (blocked) during %r' % (HANG_S, line[:120]), 'hang')
             resp = self.r.readline()
         except (BrokenPipeError, OSError):
             resp = b''
